@@ -120,22 +120,6 @@ theorem ranges_ordered {s : Sys} (h : Reachable s) :
 
 /-! ## Append-only: a block is appended only at `queued.next`, numbers are accepted once -/
 
-/-- what the `push` event does to the store and to the log of appended blocks -/
-theorem push_effect {s s' : Sys} {i : Nat} (hs : step? s (.push i) = some s') :
-    ∃ r, s.parked[i]? = some r ∧ r.block.num ≤ s.store.queued.next ∧
-      s'.store = (s.store.tryPush CACHE_CAPACITY r.block).1 ∧
-      s'.accepted = (if (s.store.tryPush CACHE_CAPACITY r.block).2 then s.accepted ++ [r.block] else s.accepted) ∧
-      s'.handed = s.handed := by
-  simp only [step?] at hs
-  split at hs
-  · exact absurd hs (by simp)
-  · rename_i r hr
-    split at hs
-    · exact absurd hs (by simp)
-    · rename_i hle
-      injection hs with hs; subst hs
-      exact ⟨r, hr, by omega, by rw [afterQueue_store], by rw [afterQueue_accepted], by rw [afterQueue_handed]⟩
-
 /-- **push_only_at_next** (`try_push`). When a parked request runs its `try_push` critical section, either its number
 is not `queued.next` and the store is left untouched, or the block is appended exactly at `queued.next`, becomes
 the block `BlockStore::block` returns for that number, and `queued.next` advances by one. -/
@@ -196,18 +180,6 @@ theorem refines_append_only_chain {s s' : Sys} {e : Event} (h : Reachable s) (hs
         · exact absurd ((tryPush_modified_iff _ _ _).mp hx) hm
       rw [hmod] at ha; exact ha
   · exact Or.inl ha
-
-theorem pairwise_lt_inj {l : List Block} (h : l.Pairwise (fun a b => a.num < b.num)) {a b : Block}
-    (ha : a ∈ l) (hb : b ∈ l) (hn : a.num = b.num) : a = b := by
-  induction l with
-  | nil => simp at ha
-  | cons x xs ih =>
-    rw [List.pairwise_cons] at h
-    rcases List.mem_cons.mp ha with rfl | ha' <;> rcases List.mem_cons.mp hb with rfl | hb'
-    · rfl
-    · have := h.1 b hb'; omega
-    · have := h.1 a ha'; omega
-    · exact ih h.2 ha' hb'
 
 /-- **no_substitution.** Between two restarts a number is accepted at most once: two accepted blocks with the same
 number are the same block; the cache and the hand-offs to storage contain accepted blocks only, so a cache read
